@@ -316,6 +316,69 @@ theorem step_refines (hI : Lawful I) (ts : List (Tree T)) (op : Op E M V) (hwf :
             rw [map_set_same (seq I) _ j b _ htj' b2, map_set_same (seq I) ts i a _ hti a2]
           · intro r h; simp only [Option.some.injEq] at h; subst h
             exact (hwf.set i a3).set j b3
+  | insertTag i k v m p =>
+    simp only [stepM, stepS, List.getElem?_map]
+    cases hti : ts[i]? with
+    | none => simp
+    | some t =>
+      have ht := hwf.get hti
+      have hsing := Singleton_tag I hI m _ (Singleton_new I hI v)
+      obtain ⟨s1, s2⟩ := insertAt_item_spec I hI t k _ p ht hsing
+      refine ⟨?_, ?_⟩
+      · simp [List.map_set, s1, size_eq I _ s2, hI.tag_own]
+      · intro r h; simp only [Option.some.injEq] at h; subst h
+        exact hwf.set i s2
+  | moveRoot i w j pos p =>
+    simp only [stepM, stepS, List.getElem?_map]
+    cases hti : ts[i]? with
+    | none => simp
+    | some t =>
+      cases htj : ts[j]? with
+      | none => simp
+      | some u0 =>
+        have ht := hwf.get hti
+        simp only [Option.map_some]
+        cases ho : onlyItem? I t with
+        | none =>
+          have hlen := onlyItem_none I t ht ho
+          refine ⟨?_, ?_⟩
+          · cases hs : seq I t with
+            | nil => simp
+            | cons x xs =>
+              cases xs with
+              | nil => rw [hs] at hlen; simp at hlen
+              | cons y ys => simp
+          · intro r h; simp only [Option.some.injEq] at h; subst h; exact hwf
+        | some it =>
+          obtain ⟨_, hseq, hsing⟩ := onlyItem_some I hI t ht it ho
+          have hx : WFt I (if w = 0 then Tree.nil else t) := by
+            split
+            · trivial
+            · exact ht
+          have hwf1 : AllWF I (ts.set i (if w = 0 then Tree.nil else t)) := hwf.set i hx
+          have hmap1 : (ts.map (seq I)).set i (if w = 0 then [] else [I.own it]) =
+              (ts.set i (if w = 0 then Tree.nil else t)).map (seq I) := by
+            rw [List.map_set]; congr 1
+            split
+            · rfl
+            · exact hseq.symm
+          obtain ⟨u, huj⟩ : ∃ u, (ts.set i (if w = 0 then Tree.nil else t))[j]? = some u := by
+            rw [List.getElem?_set]
+            split
+            · split
+              · exact ⟨_, rfl⟩
+              · rename_i h1 h2
+                have := (List.getElem?_eq_some_iff.1 hti).1
+                omega
+            · exact ⟨u0, htj⟩
+          have hu := hwf1.get huj
+          obtain ⟨q1, q2⟩ := insertAt_item_spec I hI u pos it p hu hsing
+          rw [hseq]
+          simp only [hmap1, List.getElem?_map, huj, Option.map_some]
+          refine ⟨?_, ?_⟩
+          · simp [List.map_set, q1, size_eq I _ q2]
+          · intro r h; simp only [Option.some.injEq] at h; subst h
+            exact hwf1.set j q2
 
 /-- Whole histories: the spec run on the represented sequences is the image of the model run. -/
 theorem run_refines (hI : Lawful I) (ops : List (Op E M V)) (ts : List (Tree T)) (hwf : AllWF I ts)
